@@ -13,6 +13,12 @@
       committed
   R5  staged counts reach the scheduler counters only in commit_batch_update (submission never writes user_inst_coll_resources); every read of
       the staging table in commit_batch_update is keyed by (in_batch_id, in_update_id)
+  R6  the bunch insert gives a job of a later update (update_id != 1) the state 'Pending' and nothing else: such a job may sit in a job group that is already
+      running, where the only thing that keeps the scheduler away from it before the commit is its state (commit_batch_update promotes it).  Decided for the
+      value bound to the `state` column of INSERT INTO jobs: the per-job loop of _create_jobs is followed symbolically (helpers inlined at statement and at
+      expression level, locals substituted, branches merged into conditional expressions, rejecting branches into the path condition) and the resulting
+      decision tree is enumerated over the order classes of the update id w.r.t. the literals it is compared with and the truth values of the other
+      conditions (engines/c41init.py); INSERT INTO jobs occurs nowhere else in the batch service
 Not decided: histories; completeness of "exactly as if it had not been started" for non-job side effects (e.g. reserved id ranges).
 """
 from __future__ import annotations
@@ -242,6 +248,85 @@ def r5(ctx: Ctx, prog: sf.SqlProgram) -> None:
     ctx.need(k >= 3, f'commit_batch_update: only {k} reads of the staging table found')
 
 
+FE = 'batch/batch/front_end/front_end.py'
+
+
+def r6(ctx: Ctx) -> None:
+    from engines import c41init as ci
+    from engines import inline
+    m = pf.load(FE)
+    m.func('_create_jobs')
+    cons = f'{FE}::_create_jobs::INSERT INTO jobs'
+    # ---- the only INSERT INTO jobs of the service, its argument list and the positions of `state` / `update_id` -----------------------------
+    sites = []
+    rels = [FE] + ([r for r in pf.walk_py(['batch/batch']) if r != FE] if ctx.tier == 'thorough' else [])
+    for rel in rels:
+        try:
+            mod = m if rel == FE else pf.load(rel)
+        except (AnalysisError, OSError):
+            continue
+        if 'jobs' not in mod.src:
+            continue
+        for e in sf.embedded_in(mod):
+            if e.sql_text is None:
+                continue
+            for st in e.stmts():
+                if st.kind == 'insert' and isinstance(st.table, str) and st.table.lower() == 'jobs':
+                    sites.append((rel, e, st))
+    ctx.need(sites, f'{FE}: INSERT INTO jobs not found')
+    for rel, e, st in sites:
+        if not (rel == FE and e.qual.startswith('_create_jobs')):
+            raise AnalysisError(f'{rel}::{e.qual}: another INSERT INTO jobs; the initial state it gives to jobs of an uncommitted update is not analysed')
+    ctx.need(len(sites) == 1, f'{FE}::_create_jobs: {len(sites)} INSERT INTO jobs statements')
+    _rel, e, st = sites[0]
+    ctx.need(e.method in ('execute_many', 'executemany') and len(e.call.args) >= 2 and isinstance(e.call.args[1], ast.Name), f'{cons}: rows are not passed as a named list to execute_many')
+    lst = e.call.args[1].id
+    ins, dup, _uv = sr.insert_colmap(st)
+    ctx.need('state' in ins and 'update_id' in ins and not dup and not st.ignore and not st.replace, f'{cons}: columns state / update_id not bound, or not a plain INSERT')
+    params = sr.params_in_order(st)
+
+    def pos(col: str) -> Optional[int]:
+        ex = ins[col]
+        return [i for i, p in enumerate(params) if p is ex][0] if ex.kind == 'param' else None
+    if ins['state'].kind == 'lit':
+        ctx.check(ins['state'].value == 'Pending', 'R6', cons + '::later updates start Pending', f'every job is inserted with the literal state {ins["state"].value!r}: a job of a later, uncommitted update '
+                  'that sits in a running job group is visible to the scheduler', m.path, e.lineno)
+        return
+    si, ui = pos('state'), pos('update_id')
+    ctx.need(si is not None and ui is not None, f'{cons}: state / update_id are not parameters of the statement')
+    # ---- symbolic flow through the per-job loop ------------------------------------------------------------------------------------------------
+    m2, il = inline.inline_functions(ci.slice_module(m, '_create_jobs'), '_create_jobs')
+    fn = m2.func('_create_jobs')
+    loops = [n for n in fn.body if isinstance(n, (ast.For, ast.AsyncFor)) and any(isinstance(c, ast.Call) and isinstance(c.func, ast.Attribute) and c.func.attr in ('append', 'extend', 'insert')
+                                                                                  and isinstance(c.func.value, ast.Name) and c.func.value.id == lst for c in ast.walk(n))]
+    others = [c for c in ast.walk(fn) if isinstance(c, ast.Call) and isinstance(c.func, ast.Attribute) and c.func.attr in ('append', 'extend', 'insert') and isinstance(c.func.value, ast.Name)
+              and c.func.value.id == lst and not any(c is x for lp in loops for x in ast.walk(lp))]
+    ctx.need(len(loops) == 1 and not others and not loops[0].orelse, f'{FE}::_create_jobs: the per-job loop that fills `{lst}` was not recognised')
+    stores = sum(1 for n in ast.walk(fn) if isinstance(n, ast.Name) and n.id == lst and isinstance(n.ctx, (ast.Store, ast.Del)))
+    ctx.need(stores == 1, f'{FE}::_create_jobs: `{lst}` is rebound')
+    helpers = {f.name: f for f in m.tree.body if isinstance(f, ast.FunctionDef)}
+    flow = ci.SymFlow(helpers, {lst})
+    flow.run(loops[0].body)
+    ctx.need(flow.sinks and not flow.unanalysed, f'{FE}::_create_jobs: rows of `{lst}`: ' + ('; '.join(flow.unanalysed) or 'no append((...)) found on a path that is followed'))
+    ctx.unit('helpers inlined into _create_jobs (statement level)', len(il.inlined))
+    ctx.unit('helpers substituted at expression level', len(set(flow.expanded)))
+    fparams = {a.arg for a in fn.args.args + fn.args.kwonlyargs}
+    for sk in flow.sinks:
+        ctx.need(len(sk.elts) == len(params), f'{FE}::_create_jobs: the tuple appended to `{lst}` has {len(sk.elts)} elements, the statement {len(params)} parameters')
+        upd = sk.elts[ui]
+        ok_upd = isinstance(upd, ast.Name) and upd.id.endswith('#0') and upd.id[:-2] in fparams and \
+            not any(isinstance(n, ast.Name) and n.id == upd.id[:-2] and isinstance(n.ctx, (ast.Store, ast.Del)) for n in ast.walk(fn))
+        ctx.need(ok_upd, f'{FE}::_create_jobs: the update id stored with the job (`{ci.show(upd)}`) is not a plain parameter of _create_jobs')
+        verdict, a, b = (ci.decide_slot(sk.elts[si], sk.pc, upd.id, 'Pending') + (None,))[:3]
+        if verdict == 'unknown':
+            raise AnalysisError(f'{FE}::_create_jobs: initial state `{ci.show(sk.elts[si])[:200]}` of the jobs of a later update not decided: {a}')
+        ctx.check(verdict == 'ok', 'R6', cons + '::later updates start Pending',
+                  f'a job of an update that is not the first is inserted with state {", ".join(b or [])} when [{a}] (stored state: `{ci.show(sk.elts[si])[:160]}`). Jobs of update 1 are shielded by their job '
+                  'groups (created complete, flipped to running by the commit); a later update can put jobs into a job group that is ALREADY running (absolute_job_group_id 0 of a running batch), and the '
+                  'scheduler selects Ready jobs of running groups without looking at batch_updates.committed. History: update 1 committed and running; updates/create opens update 2; its bunch '
+                  'with such a job is inserted; before (or without) the commit the driver schedules it and the autoscaler counts its cores', m.path, sk.line, detail=a if verdict == 'ok' else None)
+
+
 def run(ctx: Ctx) -> None:
     ctx.explanation = 'Enumeration of every statement through which a job of an uncommitted update could become runnable, counted or complete.'
     ctx.rule('R1', 'statements that can take a job out of Pending are the commit procedure (confined to the rows of the update being committed) or restricted to committed updates', 3)
@@ -249,9 +334,11 @@ def run(ctx: Ctx) -> None:
     ctx.rule('R3', 'driver selections reach jobs only through job groups in state running', 14)
     ctx.rule('R4', 'cancellation moves only committed updates\' counts; a non-root group must be committed to be cancelled', 3)
     ctx.rule('R5', 'staged counts enter the scheduler counters only at commit, and only those of the update being committed', 5)
+    ctx.rule('R6', 'jobs of a later update (update_id != 1) are inserted Pending on every accepted path (decision tree of the stored state enumerated over update-id classes and condition atoms)', 1)
     prog = sf.load_program()
     r1(ctx, prog)
     r2(ctx, prog)
     r3(ctx)
     r4(ctx, prog)
     r5(ctx, prog)
+    r6(ctx)
